@@ -72,17 +72,35 @@ def r4(repo, res):
     f = repo.func("lpinterface::CBC.solve")
     res.analysed(f)
     init = repo.func("lpinterface::CBC.__init__")
-    S = Obj(OPTIMAL=0, FEASIBLE=1, INFEASIBLE=2, UNBOUNDED=3, ABNORMAL=4, NOT_SOLVED=6)
-    # the status table as written in __init__
-    tbl = None
-    for n in walk_local(init):
-        if isinstance(n, ast.Assign) and ast.unparse(n.targets[0]) == "self.STATUS":
-            for d in ast.walk(n.value):
-                if isinstance(d, ast.Dict):
-                    tbl = Evaluator({"self.ortools.Solver": S}).ev(d)
+    res.analysed(init)
+
+    class SolverStub:
+        _fold_ok = True
+        OPTIMAL, FEASIBLE, INFEASIBLE, UNBOUNDED, ABNORMAL, NOT_SOLVED = 0, 1, 2, 3, 4, 6
+        CBC_MIXED_INTEGER_PROGRAMMING = 77
+
+        def __init__(self, *a):
+            self.made = a
+
+        def infinity(self):
+            return float("inf")
+
+    S = SolverStub
+    # the status table the constructor builds (the constructor folded whole against a stand-in of the library module)
+    from sa.fold import Lifted
+    try:
+        me0 = Obj()
+        Lifted(init, funcs={"importlib.import_module": lambda name: Obj(Solver=SolverStub), "collections.defaultdict": collections.defaultdict,
+                            "defaultdict": collections.defaultdict, "getattr": getattr})(me0, "M")
+        tbl = dict(me0.STATUS) if hasattr(me0, "STATUS") else None
+        dflt = me0.STATUS[12345] if tbl is not None else None
+    except (Unfoldable, Raised) as e:
+        res.err("C05.R4", f"CBC.__init__ outside the folding language: {e}")
+        return
     if tbl is None:
         res.err("C05.R4", "CBC status table not found")
         return
+    tbl = {k_: v_ for k_, v_ in tbl.items() if k_ != 12345}
     table = collections.defaultdict(lambda: "UNKNOWN", tbl)
     consts = module_consts(repo.mod("lpinterface"))
     rows = []
